@@ -403,6 +403,32 @@ func EndoScalars(maxDigit, maxShift int) []*big.Int {
 		}
 	}
 
+	// rounding boundaries of the lambda decomposition k = k1 + k2*lambda: with the reduced basis (a1, b1), (a2, b2)
+	// of the lattice {(x, y): x + y*lambda = 0 mod n} the coefficients are c1 = round(b2*k/n), c2 = round(-b1*k/n);
+	// an implementation that truncates, or rounds with too few bits of the precomputed quotients, is off by one
+	// lattice vector exactly for the k just around (j + 1/2) * n / g, g in {|b1|, b2 = a1, a2}
+	for _, gs := range []string{"3086d221a7d46bcde86c90e49284eb15", "e4437ed6010e88286f547fa90abfe4c3", "114ca50f7a8e2f3f657c1108d9d44cfd8"} {
+		g, _ := new(big.Int).SetString(gs, 16)
+		js := []*big.Int{big.NewInt(0), one, big.NewInt(2), new(big.Int).Rsh(g, 1), new(big.Int).Sub(g, one), new(big.Int).Sub(g, big.NewInt(2))}
+
+		for _, f := range Fixed(6, "glv-rounding") {
+			js = append(js, new(big.Int).Mod(f, g))
+		}
+
+		for _, j := range js {
+			// k = floor((2j + 1) * n / (2g)) and neighbours
+			num := new(big.Int).Mul(new(big.Int).Add(new(big.Int).Lsh(j, 1), one), ref.N)
+			k0 := num.Div(num, new(big.Int).Lsh(g, 1))
+
+			for d := int64(-2); d <= 2; d++ {
+				v := new(big.Int).Add(k0, big.NewInt(d))
+				if v.Sign() > 0 && v.Cmp(ref.N) < 0 {
+					set[v.Text(16)] = v
+				}
+			}
+		}
+	}
+
 	out := make([]*big.Int, 0, len(set))
 	for _, v := range set {
 		out = append(out, v)
